@@ -40,6 +40,8 @@ type Checker struct {
 
 	failedPeersMu sync.Mutex
 	failedPeers   map[peer.ID]map[string]int
+	// ReceivedAt of the metric the count in failedPeers refers to
+	alertedFor map[peer.ID]map[string]int64
 }
 
 // NewChecker creates a Checker using the given
@@ -55,6 +57,7 @@ func NewChecker(ctx context.Context, metrics *Store, threshold float64) *Checker
 		metrics:     metrics,
 		threshold:   threshold,
 		failedPeers: make(map[peer.ID]map[string]int),
+		alertedFor:  make(map[peer.ID]map[string]int64),
 	}
 }
 
@@ -110,6 +113,17 @@ func (mc *Checker) alert(pid peer.ID, metricName string) error {
 		}
 	}
 
+	// The alert count refers to one expired metric. When the peer has
+	// sent a newer one since (it recovered and is failing again), start
+	// over so that the new failure is alerted too.
+	if mc.alertedFor[pid] == nil {
+		mc.alertedFor[pid] = make(map[string]int64)
+	}
+	if mc.alertedFor[pid][metricName] != lastMetric.ReceivedAt {
+		mc.alertedFor[pid][metricName] = lastMetric.ReceivedAt
+		delete(failedMetrics, metricName)
+	}
+
 	// If above threshold, remove all metrics for that peer
 	// and clean up failedPeers when no failed metrics are left.
 	if failedMetrics[metricName] >= MaxAlertThreshold {
@@ -117,6 +131,10 @@ func (mc *Checker) alert(pid peer.ID, metricName string) error {
 		delete(failedMetrics, metricName)
 		if len(mc.failedPeers[pid]) == 0 {
 			delete(mc.failedPeers, pid)
+		}
+		delete(mc.alertedFor[pid], metricName)
+		if len(mc.alertedFor[pid]) == 0 {
+			delete(mc.alertedFor, pid)
 		}
 		return nil
 	}
